@@ -435,6 +435,8 @@ def eval_expr(e, env):
         f = e[1]
         try:
             if f == "pow":
+                if a[0] == 0 and a[1] < 0:
+                    return float("inf")
                 return math.pow(a[0], a[1])
             if f == "exp":
                 return math.exp(a[0])
